@@ -306,6 +306,9 @@ Failed(e) ==
     [] e.ev = "tone" -> ToneFailed(e)
     [] e.ev = "cohdd" -> DdFailed(e)
     [] e.ev = "supplied" -> SuppliedFailed(e)
+    \* lazy combination of Dask results computed in one graph vs the NumPy twins (scale 0: exact)
+    [] e.ev = "joint" -> Ok(e.samelen, "joint-shape")
+                         \cup Ok(RLe(e.maxdiff, RMul(RPow10(-5), e.scale)), "joint-result-differs-from-numpy-twins")
     [] e.ev = "roundtrip" -> RoundTripFailed(e)
     [] OTHER -> {"unknown-event"}
 
